@@ -242,7 +242,9 @@ def prepare_loop(sl):
         def prepare_file_offset_table(path):
             log.append(("offset-table", path, fs.files.get(path)))
             k = _lazy_kind("offset_table_outcome", 3)
-            return None if k == 0 else (lines_declared if k == 1 else fresh_int("lines_read", 1))
+            n = None if k == 0 else (lines_declared if k == 1 else fresh_int("lines_read", 1))
+            log.append(("lines", n))
+            return n
 
         @staticmethod
         def remove_file_offset_table(path):
@@ -265,12 +267,19 @@ def prepare_loop(sl):
             observe("on return the document file has the declared size", fs.files[doc_path] == usize)
         tables = [x for x in log if x[0] == "offset-table"]
         observe("the offset table is built exactly once, as the last step, for the verified document file",
-                len(tables) == 1 and log[-1][0] == "offset-table" and tables[0][1] == doc_path and tables[0][2] is fs.files.get(doc_path))
+                len(tables) == 1 and [x[0] for x in log if x[0] != "lines"][-1] == "offset-table" and tables[0][1] == doc_path and tables[0][2] is fs.files.get(doc_path))
     else:
         observe("failure is an explicit Rally error (data / system setup / assertion), never a silent partial state",
                 isinstance(err, (exceptions.DataError, exceptions.SystemSetupError, exceptions.RallyAssertionError, RuntimeError)))
         if log and log[-1][0] == "remove-offset-table":
             observe("a table with the wrong number of lines is removed and reported", isinstance(err, exceptions.DataError))
+    counted = [x[1] for x in log if x[0] == "lines" and x[1] is not None]
+    if counted:
+        wrong = bool(counted[-1] != lines_declared)
+        observe("a freshly built table whose line count differs from the declared number of documents is an explicit data error",
+                (how == "raise" and isinstance(err, exceptions.DataError)) == wrong)
+        # a table left behind is still 'valid' (newer than the data file): the next run would skip the count and accept the file
+        observe("and that table is removed again, so that a later run cannot silently accept the file", (log[-1][0] == "remove-offset-table") == wrong)
     if offline:
         observe("offline mode never downloads", not [x for x in log if x[0] == "download"])
 
